@@ -23,7 +23,7 @@ def check_doc(args):
 def scopes(chk):
     quick = chk.tier == 'quick'
     sc = c01.scopes(chk)
-    sc.append(('defs', {'Budget': 3 if quick else 4, 'TextPool': ['a', ' ', '['], 'ComPool': [], 'MathKinds': ['$'], 'MEnvNames': [],
+    sc.append(('defs', {'Budget': 3, 'TextPool': ['a', ' ', '['], 'ComPool': [], 'MathKinds': ['$'], 'MEnvNames': [],
                         'VerbNames': [], 'Leaves': D.DEF_LEAVES + [D.leaf_cmd('def', ('{', 'a'), ('{', 'b')), D.leaf_cmd('section', ('{', 't')), D.leaf_cmd('section', ('[', 's'), ('{', 't')),
                                                    D.leaf_cmd('textbf', ('{', 'b')), D.leaf_cmd('label', ('{', 'k')), 'Cmd(%s, <<>>)' % D.S('noindent')],
                         'ListNames': ['itemize'], 'MaxSib': 3, 'CmdNames': ['a', 'nm'], 'MaxArgs': 2}))      # \nm is also USED, with arguments
